@@ -566,11 +566,23 @@ def _run_batch(ctx, w, part, fnd, stats, coq_msgs, coq_meta):
     # it the freed number): what is reported for the new message is about the new message
     if stored:
         last = len(stored)
-        w.cmd("A", f"t FETCH {last} (RFC822.SIZE)")
+        od = b"".join(w.cmd("A", f"t FETCH {last} (RFC822.SIZE INTERNALDATE)"))
+        md = re.search(rb'INTERNALDATE "([^"]+)"', od)
         w.cmd("A", f"t STORE {last} +FLAGS.SILENT (\\Deleted)")
         w.cmd("A", "t EXPUNGE")
         fresh = b"Subject: key reuse\r\nFrom: a@example.com\r\n\r\n" + b"x" * rng.randint(700, 1900) + b"\r\n"
-        w.cmd("A", b"t APPEND inbox {%d}\r\n" % len(fresh) + fresh)
+        # half of the time the message that goes and the one that comes have the same INTERNALDATE (a client re-saving
+        # a draft with the date it had): first put such a message in the place of the last one
+        dt_ = b""
+        if rng.random() < 0.5:
+            dt_ = b' "05-Mar-2024 10:11:12 +0000"'
+            first = b"Subject: draft\r\nFrom: a@example.com\r\n\r\n" + b"y" * rng.randint(10, 300) + b"\r\n"
+            w.cmd("A", b"t APPEND inbox" + dt_ + b" {%d}\r\n" % len(first) + first)
+            w.cmd("A", f"t FETCH {last} (RFC822.SIZE)")
+            w.cmd("A", f"t SEARCH LARGER 100")
+            w.cmd("A", f"t STORE {last} +FLAGS.SILENT (\\Deleted)")
+            w.cmd("A", "t EXPUNGE")
+        w.cmd("A", b"t APPEND inbox" + dt_ + b" {%d}\r\n" % len(fresh) + fresh)
         out, res = _fetch(ctx, w, f"t FETCH {last} (RFC822.SIZE BODY.PEEK[])", fnd)
         fr = [r for r in res if r.get("kind") == "fetch" and r["n"] == last]
         stats["key_reuse"] = stats.get("key_reuse", 0) + 1
